@@ -120,6 +120,18 @@ func f64Cases(r *hx.Rand, n int) {
 }
 
 func scaleCase(vals []float64, cls benchunit.Class, tag string) {
+	defer func() {
+		if r := recover(); r != nil {
+			// the real code panicked: report the case and continue
+			var vs []string
+			for _, v := range vals {
+				vs = append(vs, hx.F64(v))
+			}
+			hx.Printf("case %d kind=scale vals=%s cls=%d isingle=- inoop=- tag=%s\n", id, strings.Join(vs, ","), int(cls), tag)
+			hx.Printf("crash %d panic: %v\n", id, r)
+			id++
+		}
+	}()
 	var vs, fmts, singles, noops []string
 	sc := benchunit.CommonScale(vals, cls)
 	for _, v := range vals {
@@ -186,8 +198,19 @@ var unitSeps = []string{"/", "*", "-", " ", "\t", " ", " ", "//", "\x80", "\x
 
 func main() {
 	defer hx.Flush()
+	// First use of the package in this process, before anything else touched it: the binary
+	// class below its smallest prefix, then the decimal class (order matters for lazily built state).
+	scaleCase([]float64{0.25}, benchunit.Binary, "firstuse")
+	scaleCase([]float64{2048, 0.0625}, benchunit.Binary, "firstuse")
+	scaleCase([]float64{3e-12, 5e-10}, benchunit.Decimal, "firstuse")
 	r := hx.NewRand(10)
 	f64Cases(r, hx.N(7000, 140000))
+	// the largest magnitudes: the top prefix must still be chosen
+	for _, v := range []float64{math.MaxFloat64, -math.MaxFloat64, math.Nextafter(math.MaxFloat64, 0), 1e300, 1e15, 0x1p1023} {
+		scaleCase([]float64{v}, benchunit.Decimal, "huge")
+		scaleCase([]float64{v}, benchunit.Binary, "huge")
+		scaleCase([]float64{0, v, 0}, benchunit.Decimal, "huge")
+	}
 
 	si, iec, sig := benchunit.VerifThresholds()
 	span := 4
